@@ -34,4 +34,9 @@ def main():
     c, s = S.cos(x + y), S.sin(x + y)
     assert P.nf((c * c + s * s - 1).n).is_zero()
     print("engine ok")
+    try:
+        from gsv.selftest import shim_fidelity
+        ok = shim_fidelity.main() and ok
+    except ImportError as e:
+        print("shim fidelity test skipped (real numpy not importable here):", e)
     return 0 if ok else 1
